@@ -759,6 +759,20 @@ func main() {
 		rep.Case(fmt.Sprintf("header:%d:%s", which, l), true)
 		rep.Count("extra:header")
 
+		// Write(b, off, sz): a window of a slice after a program
+		{
+			wout, wl := mk()
+			wb := rng.Bytes(rng.Intn(40))
+			woff := rng.Intn(len(wb) + 1)
+			wsz := rng.Intn(len(wb) - woff + 1)
+			oc := vh.Guard(func() { wout.Write(wb, woff, wsz) })
+			got := "panic"
+			if oc.OK() {
+				got = fmt.Sprintf("%s %d", vh.Hex(wout.ToByteArray()), wout.Size())
+			}
+			add(fmt.Sprintf("WW %s %s %d %d", wl, vh.Hex(wb), woff, wsz), got, "write:Write(b,off,sz)", fmt.Sprintf("off=%d sz=%d len=%d", woff, wsz, len(wb)))
+		}
+
 		// ReadByte + ReadDecimalLen
 		v := genInt(rng, 8)
 		d := gio.NewDataOutputX().WriteDecimal(v).ToByteArray()
